@@ -178,14 +178,35 @@ def make_operation_document(rng: random.Random, version: str, *, with_security=F
             params.append({"name": "payload", "in": "body", "required": required, "schema": adapt(schema, version)})
             op["consumes"] = ["application/json"]
             desc["body"].append(("application/json", schema, required))
+    shared = []
+    if rng.random() < 0.3:
+        # some parameters are declared once for the whole path item; an operation-level parameter of the same name in
+        # ANOTHER location does not override them
+        movable = [p for p in params if p["in"] in ("query", "header") and "content" not in p]
+        for p in rng.sample(movable, min(len(movable), rng.randint(1, 2))):
+            params.remove(p)
+            shared.append(p)
+            other = "header" if p["in"] == "query" else "query"
+            if rng.random() < 0.5 and p["name"] not in desc[other]:
+                twin_schema = {"type": "integer", "minimum": 0, "maximum": 9}
+                desc[other][p["name"]] = (twin_schema, True)
+                twin = {"name": p["name"], "in": other, "required": True}
+                if three:
+                    twin["schema"] = twin_schema
+                else:
+                    twin.update(twin_schema)
+                params.append(twin)
     op["parameters"] = params
+    path_item = {method: op}
+    if shared:
+        path_item = {"parameters": shared, method: op}
     if three:
-        doc = {"openapi": "3.0.2" if version == "3.0" else "3.1.0", "info": {"title": "t", "version": "1"}, "paths": {"/op/{p}": {method: op}}, "components": {"schemas": {k: adapt(v, version) for k, v in COMPONENT_SCHEMAS.items()}}}
+        doc = {"openapi": "3.0.2" if version == "3.0" else "3.1.0", "info": {"title": "t", "version": "1"}, "paths": {"/op/{p}": path_item}, "components": {"schemas": {k: adapt(v, version) for k, v in COMPONENT_SCHEMAS.items()}}}
         if with_security:
             doc["components"]["securitySchemes"] = {"K": {"type": "apiKey", "in": "header", "name": "X-API-Key"}, "B": {"type": "http", "scheme": "bearer"}}
             op["security"] = [{"K": []}, {"B": []}]
     else:
-        doc = {"swagger": "2.0", "info": {"title": "t", "version": "1"}, "paths": {"/op/{p}": {method: op}}, "definitions": {k: adapt(v, version) for k, v in COMPONENT_SCHEMAS.items()}}
+        doc = {"swagger": "2.0", "info": {"title": "t", "version": "1"}, "paths": {"/op/{p}": path_item}, "definitions": {k: adapt(v, version) for k, v in COMPONENT_SCHEMAS.items()}}
         if with_security:
             doc["securityDefinitions"] = {"K": {"type": "apiKey", "in": "header", "name": "X-API-Key"}}
             op["security"] = [{"K": []}]
